@@ -8,8 +8,24 @@ VARIABLE l
 Init == l = 1
 Next == l <= Len(Rec) /\ l' = l + 1
 TJ(j) == IF j.k = "bv" THEN BVT(j.w) ELSE ArrT(j.iw, j.dw)
+(* what the builder must have built for a descriptor: the operator asked for (equality / if-then-else pick their
+   array form by the operand kind), with the attributes asked for - except that a slice of the full width and an
+   extension by zero bits return the operand itself.  SmtWriter.tla's BuilderInvariant rests on that exception. *)
+NoOp(x) == \/ x.op \in {"zext", "sext"} /\ x.by = 0
+           \/ x.op = "slice" /\ x.lo = 0 /\ x.ts[1].k = "bv" /\ x.hi + 1 = x.ts[1].w
+ExpOp(x) == IF x.op = "eq" /\ x.ts[1].k = "arr" THEN "arreq"
+            ELSE IF x.op = "ite" /\ x.ts[2].k = "arr" THEN "arrite" ELSE x.op
+Built(r) ==
+  LET n == r.nodes[r.root] IN
+  IF NoOp(r.d) THEN IsSym(n)
+  ELSE /\ n.op = ExpOp(r.d) /\ Len(n.a) = Len(r.d.ts)
+       /\ (r.d.op \in {"zext", "sext"} => n.by = r.d.by)
+       /\ (r.d.op = "slice" => n.hi = r.d.hi /\ n.lo = r.d.lo)
+       /\ (r.d.op = "arrconst" => n.iw = r.d.by + 1)
+       /\ \A j \in 1..Len(n.a) : IsSym(r.nodes[n.a[j]]) /\ r.nodes[n.a[j]].name = <<"s0", "s1", "s2">>[j]
 Why(r) ==
   IF r.tc = "panic" THEN "ok"
+  ELSE IF ~Built(r) THEN "the builder did not build the node that was asked for"
   ELSE LET ty == TypesAll(r.nodes)[r.root] IN
        IF r.tc = "ok" THEN (IF ty = BAD THEN "type_check accepted an ill-typed node"
                             ELSE IF TJ(r.t) # ty THEN "type_check reported the wrong type"
